@@ -42,6 +42,15 @@ func c04Eval(c *choice.Ctx, st *Stats, t *wireToken) {
 	switch verdict {
 	case wOpen:
 		st.Outcome("open:" + fmt.Sprint(err == nil))
+		// no verdict on whether a tagged claims map is taken; but IF it is taken, it is judged and read like the map
+		// inside the tags
+		if len(t.open) == 1 && t.open[0] == "tagged-map" && len(t.bad) == 0 && err == nil {
+			if !t.abs.Valid() {
+				c.Failf(fmt.Sprintf("C04:accepted:P%d:tagged-map:%s", t.p, t.abs.Check().String()), "a tagged claims map was accepted although the map inside violates the rules\n%s", diag())
+			} else if gv, ev := getterVector(cl), expectedVector(t.abs); gv != ev {
+				c.Failf(fmt.Sprintf("C04:fidelity:P%d:tagged-map", t.p), "getters differ from the wire\n got  %s\n want %s\n%s", gv, ev, diag())
+			}
+		}
 		return
 	case wBad:
 		if err == nil {
